@@ -216,8 +216,17 @@ func vf03Compare(st *vfStats, t vfFataler, p vfParrot, serverName string, raw []
 	}
 }
 
+// vf03CfgVers are version bounds a caller may have put into its tls.Config; the parrot's spec overrides them.
+var vf03CfgVers = [][2]uint16{{0, 0}, {0, VersionTLS10}, {0, VersionTLS11}, {0, VersionTLS12}, {0, VersionTLS13}, {VersionTLS10, VersionTLS11},
+	{VersionTLS12, VersionTLS12}, {VersionTLS13, VersionTLS13}, {VersionTLS10, 0}, {VersionTLS13, 0}}
+
 func vf03Build(p vfParrot, serverName string, seed uint64, cache ClientSessionCache) (*UConn, error) {
+	return vf03BuildV(p, serverName, seed, cache, [2]uint16{})
+}
+
+func vf03BuildV(p vfParrot, serverName string, seed uint64, cache ClientSessionCache, vers [2]uint16) (*UConn, error) {
 	cfg := vfClientConfig(serverName)
+	cfg.MinVersion, cfg.MaxVersion = vers[0], vers[1]
 	if serverName == "" {
 		cfg.InsecureSkipVerify = true
 	}
@@ -268,10 +277,15 @@ func TestVerifC03ParrotMatchesSpec(t *testing.T) {
 	for _, p := range vfParrots {
 		for i := 0; i < k; i++ {
 			name := fmt.Sprintf("host%d.example.test", i)
-			uc, err := vf03Build(p, name, uint64(i), nil)
+			cv := vf03CfgVers[(i*7)%len(vf03CfgVers)]
+			if i == 1 {
+				cv = vf03CfgVers[1+(len(p.Name)+i)%2] // Config.MaxVersion below TLS 1.2 in the quick tier too
+			}
+			uc, err := vf03BuildV(p, name, uint64(i), nil, cv)
 			st.Eval()
+			st.Class(fmt.Sprintf("config-versions=%04x..%04x", cv[0], cv[1]))
 			if err != nil {
-				st.Violation(t, "%s: BuildHandshakeState: %v", p.Name, err)
+				st.Violation(t, "%s (Config versions %04x..%04x): BuildHandshakeState: %v", p.Name, cv[0], cv[1], err)
 			}
 			vf03Compare(st, t, p, name, uc.HandshakeState.Hello.Raw, shuf[p.Name], false)
 			st.NonTrivial(p.Name + "|" + vf03WireOrder(uc.HandshakeState.Hello.Raw))
@@ -286,9 +300,11 @@ func TestVerifC03ParrotMatchesSpec(t *testing.T) {
 		if withCache {
 			cache = NewLRUClientSessionCache(4)
 		}
-		uc, err := vf03Build(p, name, rapid.Uint64().Draw(rt, "rand"), cache)
+		cv := rapid.SampledFrom(vf03CfgVers).Draw(rt, "config_versions")
+		uc, err := vf03BuildV(p, name, rapid.Uint64().Draw(rt, "rand"), cache, cv)
 		st.Eval()
 		st.Class("sni:" + kind)
+		st.Class(fmt.Sprintf("config-versions=%04x..%04x", cv[0], cv[1]))
 		if shuf[p.Name] {
 			st.Class("shuffling")
 		} else {
